@@ -22,6 +22,8 @@ CLAIMS = {
          "stateless schedule enumeration + explicit-state BFS + exhaustive window enumeration on the real node", SCHED_NOTE),
  "C07": ("model_checking", "Every schedule (and early timer firing) within the bound of 1-2 callers issuing 2-3 calls against callees that answer late, twice, ten or eleven times, through a helper process, by name/alias, from a meta process, or terminate; correlation oracle on every returned value.", "3 C07",
          "stateless schedule enumeration with virtual timers as scheduling alternatives", SCHED_NOTE),
+ "C17": ("model_checking", "Histories: BFS over start/stop/stop-force/unload/member-exit sequences for each mode against a lifecycle model (state, live members, callback counts, reasons) on the real node; all dependency graphs x failing member positions; races: every schedule within the bound of concurrent member deaths, stop vs crash, start vs start, stop vs stop, member death during start-up.", "3 C17",
+         "explicit-state BFS over operation histories + stateless schedule enumeration on the real node", SCHED_NOTE),
  "C19": ("model_checking", "Every schedule within the bound of 1-2 clients sending/calling through a real act.Pool (size 1-3, bounded worker mailboxes, parked worker, dead worker, worker crash, Add/RemoveWorkers); exactly-once, original-sender, own-reply, drop-accounting and ring-membership oracles.", "3 C19",
          "stateless schedule enumeration (delay bounding) on the instrumented implementation", SCHED_NOTE),
  "C05": ("model_checking", "Every schedule within the bound of single causes and racing pairs of termination causes (handler error, panic, Kill, parent/stranger exit signals, busy and waiting targets) on the real node; terminate-once, finality and reason oracles incl. link/monitor observers.", "3 C05",
